@@ -40,8 +40,8 @@ def coq_case(case, r) -> str:
                   for b in d['body']])
     fs = []
     for f in d['funcs']:
-        decos = clist([f'DName {x[1]} {cstr(x[2])}' if x[0] == 'N' else f'DOther {x[1]}' for x in f['decos']])
-        cs = clist([f'{{| c_cat := {CAT[c["cat"]]}; c_line := {c["line"]}; c_last := {c["last"]}; c_excs := {clist([cstr(e) for e in c["excs"]])}; c_markers := {clist([cstr(e) for e in c["markers"]])} |}}'
+        decos = clist([f'DName {x[1]} {cstr(x[2])}' if x[0] == 'N' else f'DInherit {x[1]}' if x[0] == 'H' else f'DOther {x[1]}' for x in f['decos']])
+        cs = clist([f'{{| c_cat := {CAT[c["cat"]]}; c_line := {c["line"]}; c_last := {c["last"]}; c_excs := {clist([cstr(e) for e in c["excs"]])}; c_markers := {clist([cstr(e) for e in c["markers"]])}; c_inherited := {"true" if c.get("inherited") else "false"} |}}'
                     for c in f['contracts']])
         fs.append(f'{{| f_line := {f["line"]}; f_col := {f["col"]}; f_decos := {decos}; f_contracts := {cs}; '
                   f'f_new_excs := {clist([cstr(e) for e in f["new_excs"]])}; f_new_markers := {clist([cstr(e) for e in f["new_markers"]])} |}}')
@@ -62,7 +62,7 @@ def corpus_files(tier, rnd):
             s = open(p, encoding='utf8').read()
         except Exception:
             continue
-        if not s.isascii() or s.count('\n') > 600 or '\r' in s or '\f' in s or not s.endswith('\n'): continue
+        if not s.isascii() or s.count('\n') > 600 or '\r' in s: continue
         out.append({'src': s, 'types': ALL, 'quote': "'", 'origin': os.path.relpath(p, '/'), 'noexec': True})
     return out
 
@@ -119,6 +119,8 @@ def monitor(case, r):
     if mon.get('fixpoint') is False and not mon.get('later_pass_crash') and not mon.get('later_pass_syntax'): out.append((f'no fixpoint after {mon.get("passes")} passes', tag))
     if mon.get('monotone') is False: out.append(('declarations shrank between passes', tag))
     if mon.get('findings_at_fixpoint'): out.append(('the linter still reports at the fixpoint: ' + '; '.join(mon['findings_at_fixpoint'][:3]), tag))
+    if mon.get('new_exec_error') and not case.get('noexec') and 'import' in case['types']: out.append(('the original module executes, the transformed one raises ' + mon['new_exec_error'], tag))
+    for dff in mon.get('probe_diffs', []): out.append(('executing the transformed module behaves differently: ' + dff, tag))
     if mon.get('same_definitions') is False and not case.get('noexec'): out.append(('executing the transformed module defines different names', tag))
     return out
 
@@ -127,7 +129,7 @@ def run(ctx, fr, model_available=True, cases=None):
     cases = cases if cases is not None else gen_cases(ctx.tier, ctx.seed)
     res = []
     for i in range(0, len(cases), 80):
-        res += impl.run_impl('c19_decorate.py', [{k: c[k] for k in ('src', 'types', 'quote')} for c in cases[i:i + 80]], timeout=1500)
+        res += impl.run_impl('c19_decorate.py', [{k: c[k] for k in ('src', 'types', 'quote', 'probes') if k in c} for c in cases[i:i + 80]], timeout=1500)
     mo = [None] * len(cases)
     if model_available:
         idx = [i for i, r in enumerate(res) if r.get('descr') is not None and 'harness_error' not in r]
@@ -149,6 +151,9 @@ def run(ctx, fr, model_available=True, cases=None):
         scen = {'src': c['src'], 'types': c['types'], 'quote': c.get('quote', "'"), 'origin': c.get('origin')}
         if m is not None and ' wf=0' in m: r['model_wf'] = False
         for what, tag in monitor(c, r):
+            # a hand-written corpus case can name the known finding it exhibits: only for the kind of failure it describes
+            kn = c.get('known')
+            if tag is None and kn and any(x in what for x in kn['match']): tag = kn['signature']
             fr.violations.append({'scenario': scen, 'impl': {k: r.get(k) for k in ('plan', 'out', 'exc', 'mon')}, 'what': what, 'signature': tag})
         if m is not None:
             fr.programs += 1; fr.traces_validated += 1
